@@ -11,8 +11,8 @@ while the driver instantiates BLAKE2b-256 + unpadded base64url (store.go:230-240
 namespace Mast
 
 structure Enc where
-  keyB : Key → Bytes
-  valB : Val → Bytes
+  keyB : Nat → Bytes
+  valB : Nat → Bytes
   node : NodeB → Bytes
   hash : Bytes → Bytes
 
@@ -97,7 +97,7 @@ def crc64 (b : Bytes) : Nat := (Crc.checksum b).toNat
 
 /-- `DefaultLayer` per key kind; `vk` is the harness's user `Key` type whose `Layer()` is the
     low byte of the key -/
-def layerOf (kk : KeyKind) (bf : Nat) (k : Key) : Nat :=
+def layerOf (kk : KeyKind) (bf : Nat) (k : Nat) : Nat :=
   match kk with
   | .vk => k % 256
   | .u64 => uintLayer bf k
